@@ -54,6 +54,11 @@ P = {
          "A harness server scripts the snapshot urgency of every add_version reply, decodes every uploaded snapshot itself (zlib+JSON) and compares it with its own replay of the chain up to that version; checks the urgency threshold; starts fresh replicas from a snapshot with older versions discarded; offers poison snapshots to non-empty replicas. Includes >1MB multi-version syncs, hostile Unicode, thousands of tasks.",
          "A missing snapshot is only asserted for the last version of a sync call (docs: snapshots are made with nothing unsynchronized). Trusts flate2's zlib decoder and serde_json in the oracle.",
          "DESIGN.md §5 C12"),
+ "C13": (True, "E6-adversarial", "exploration",
+         "runtime monitor against an independent pure-Python AEAD (RFC 8439 + hashlib PBKDF2): exhaustive single-byte tamper / truncation sweeps through the seal hook, and inspection + tampering of what each remote backend actually stores",
+         "Every sealed value produced through the hook is checked for the documented form (format byte 1, never-repeated nonce), opened by the independent reference to the exact plaintext, and values sealed by the reference open in the crate; every single-byte change (4 patterns per position), every truncation, an extension and every secret/salt/version-id mismatch must be rejected. What the HTTP client, the object-store server and the git backend really store (request bodies, objects, files and git objects) must open in the reference with the documented salt and AAD, contain no planted task content, and flipping / truncating / swapping / relabelling it must make the Server call fail rather than return data.",
+         "Oracle = tools/sealed_ref.py, self-tested on RFC vectors at each invocation. Nonce randomness is observed only as 'never repeated, not a counter'. Object store = hook's in-memory Service; HTTP = harness reference server.",
+         "DESIGN.md §5 C13"),
  "C14": (True, "E1-history", "exploration",
          "runtime monitor: strict wire-format validator at the Server boundary + hand-written documents replayed against the reference model",
          "Every history segment a replica hands to the Server trait is validated strictly (keys, types, uuid and timestamp syntax, no extra fields), compared in order and content with the committed operations, and scanned for markers planted in undo-only data; conversely thousands of hand-written documents (other field orders, whitespace, escapes, timestamp precisions, invalid-but-well-formed operations) are applied by a fresh replica and compared with the reference model.",
